@@ -28,7 +28,7 @@ CFG = witness.Cfg(nth=False, scope=False)
 
 
 def gen_case(ch, tier='quick'):
-    recipe = trees.gen_recipe(ch, max_elems=12 if tier == 'quick' else 28)
+    recipe = trees.gen_recipe(ch, max_elems=12 if tier == 'quick' else 28, attr_names=('title', 'data-x', 'href', 'type'))
     doc = trees.materialise(recipe)
     if not doc.all_elements():
         recipe = {'kind': 'html-api', 'top': [trees.E('a')], 'detach': None}
